@@ -11,6 +11,10 @@ pub mod util;
 #[macro_use]
 pub mod stubs;
 pub mod credit;
+pub mod frames;
+pub mod reasm;
+pub mod conn;
+pub mod saslh;
 
 #[cfg(not(kani))]
 include!(concat!(env!("OUT_DIR"), "/registry.rs"));
